@@ -139,6 +139,35 @@ pub fn exec_op(op: &Value) -> Value {
                 }
                 Ok(v)
             }
+            "convert_dir_damaged" => {
+                // a copy of the project directory in which one line of a side file is damaged,
+                // converted with the result files; must not depend on the process (hash seed)
+                let rel = op["file"].as_str().unwrap_or("");
+                let (_, text) = disk::text_of(rel);
+                let e: diskfault::Edit = serde_json::from_value(op["edit"].clone()).map_err(|e| e.to_string())?;
+                let damaged = diskfault::apply(&text, &e).ok_or_else(|| "edit does not apply".to_string())?;
+                let src = std::path::Path::new(&crate::panics::repo_root()).join(rel);
+                let srcdir = src.parent().ok_or("no parent")?;
+                let base = if std::path::Path::new("/dev/shm").is_dir() { std::path::PathBuf::from("/dev/shm") } else { std::env::temp_dir() };
+                let dst = base.join(format!("ctesim.dmg.{}", std::process::id()));
+                let _ = std::fs::remove_dir_all(&dst);
+                std::fs::create_dir_all(&dst).map_err(|e| e.to_string())?;
+                for f in std::fs::read_dir(srcdir).map_err(|e| e.to_string())? {
+                    let f = f.map_err(|e| e.to_string())?.path();
+                    if f.is_file() {
+                        if f == src {
+                            std::fs::write(dst.join(f.file_name().unwrap()), crate::corpus::string_to_latin1(&damaged)).map_err(|e| e.to_string())?;
+                        } else {
+                            std::fs::copy(&f, dst.join(f.file_name().unwrap())).map_err(|e| e.to_string())?;
+                        }
+                    }
+                }
+                let r = hulc2model::collect_hulc_data(dst.to_string_lossy().as_ref(), true, true);
+                let _ = std::fs::remove_dir_all(&dst);
+                let m = r.map_err(|e| e.to_string())?;
+                let js = m.as_json().map_err(|e| e.to_string())?;
+                Ok(json!({"hash": md5hex(js.as_bytes()), "len": js.len()}))
+            }
             "convert_dir_copy" => {
                 // the same project, copied to another place under another directory name
                 let src = std::path::Path::new(&crate::panics::repo_root()).join(op["project"].as_str().unwrap_or(""));
@@ -162,6 +191,13 @@ pub fn exec_op(op: &Value) -> Value {
             }
             "convert_text" => {
                 let (k, text) = disk::text_of(op["file"].as_str().unwrap_or(""));
+                // optional variant of the project: one value of one definition changed
+                let text = if op["edit"].is_object() {
+                    let e: diskfault::Edit = serde_json::from_value(op["edit"].clone()).map_err(|e| e.to_string())?;
+                    diskfault::apply(&text, &e).ok_or_else(|| "edit does not apply".to_string())?
+                } else {
+                    text
+                };
                 let m = convert_any(k, &text).map_err(|e| e.to_string())?;
                 let js = m.as_json().map_err(|e| e.to_string())?;
                 let mut v = json!({"hash": md5hex(js.as_bytes()), "len": js.len()});
